@@ -9,9 +9,26 @@ import (
 	"golang.org/x/tools/go/ssa"
 )
 
-func (x *exec) newCell(st *State, t types.Type, name string, init Val) *Cell {
-	x.cellN++
-	c := &Cell{ID: x.cellN, T: t, Name: name}
+func (x *exec) newCell(st *State, t types.Type, name string, site string, init Val) *Cell {
+	// cell identity is stable across paths: allocation site + frame depth + occurrence
+	key := fmt.Sprintf("%s/%d/%s", name, len(st.frames), site)
+	occ := 0
+	curID := 0
+	for {
+		k := fmt.Sprintf("%s#%d", key, occ)
+		id, ok := x.cellIDs[k]
+		if !ok {
+			x.cellN++
+			id = x.cellN
+			x.cellIDs[k] = id
+		}
+		if _, used := st.cells[id]; !used {
+			curID = id
+			break
+		}
+		occ++
+	}
+	c := &Cell{ID: curID, T: t, Name: name}
 	st.cells[c.ID] = init
 	return c
 }
@@ -45,11 +62,13 @@ func (x *exec) step(st *State, in ssa.Instruction) {
 	case *ssa.DebugRef:
 		if ident := identOf(ins); ident != "" {
 			v := x.get(st, ins.X)
-			fr.names[ident] = v
 			if ins.IsAddr {
+				fr.names[ident] = v
 				fr.nameAddr[ident] = true
-			} else {
-				delete(fr.nameAddr, ident)
+			} else if !fr.nameAddr[ident] {
+				// an address-taken variable keeps resolving through its cell: value
+				// references (e.g. the right-hand side at its definition) would go stale
+				fr.names[ident] = v
 			}
 		}
 	case *ssa.Alloc:
@@ -57,8 +76,12 @@ func (x *exec) step(st *State, in ssa.Instruction) {
 		if _, isStruct := t.Underlying().(*types.Struct); isStruct {
 			set(ins, x.allocObject(st, t, nil))
 		} else {
-			c := x.newCell(st, t, ins.Comment, zeroVal(t))
+			c := x.newCell(st, t, ins.Comment, fmt.Sprintf("%p", ins), zeroVal(t))
 			set(ins, &PtrV{Cell: c, Root: t})
+			if ins.Comment != "" && ins.Comment != "varargs" && ins.Comment != "complit" {
+				fr.names[ins.Comment] = fr.env[ins]
+				fr.nameAddr[ins.Comment] = true
+			}
 		}
 	case *ssa.FieldAddr:
 		p, ok := x.get(st, ins.X).(*PtrV)
@@ -150,7 +173,7 @@ func (x *exec) step(st *State, in ssa.Instruction) {
 		case *types.Map:
 			m := x.get(st, ins.X).(Term)
 			it := &MapIterV{Map: m, MapT: u, Visited: constArray(ArrSort(SInt, SBool), False)}
-			c := x.newCell(st, nil, "iter", it)
+			c := x.newCell(st, nil, "iter", fmt.Sprintf("%p", ins), it)
 			set(ins, &PtrV{Cell: c})
 		default:
 			panic(unsupported("range over " + ins.X.Type().String()))
@@ -172,7 +195,11 @@ func (x *exec) step(st *State, in ssa.Instruction) {
 
 func identOf(d *ssa.DebugRef) string {
 	if id, ok := d.Expr.(*ast.Ident); ok {
-		return id.Name
+		// go/ssa also emits DebugRefs for the selector identifier of field selections
+		// (x.f): those are not local variables
+		if v, ok := d.Object().(*types.Var); ok && !v.IsField() {
+			return id.Name
+		}
 	}
 	return ""
 }
